@@ -143,4 +143,18 @@ theorem tls_start_pool_calls_src : tls_start_pool_calls = "Reboot,listenTLS" := 
 theorem quic_start_pool_calls_src : quic_start_pool_calls = "Reboot,listenQUIC" := by decide
 theorem dns_shutdown_pool_calls_src : dns_shutdown_pool_calls = "shutdown,unblockTCPConns,waitShutdown,Release" := by decide
 
+/-! Strengthening round: the life cycle of a connection (`Agd.Serve.cStep`, `conn_answered_before_close`). -/
+
+/-- A DoQ connection has the shape of a TCP connection: the clean-up of `serveQUICConn` waits for the streams
+(`streamWg.Wait()`) before it closes the connection, and a stream is counted (`streamWg.Add(1)`) by the accept loop
+before its worker is submitted.  (`serveTCPConn`, `acceptTCPMsg` and `serveTCPMessage` themselves are tied as
+translated definitions, `Agd.Tie.TrC01.serveTCPConn_waits_before_close`.) -/
+theorem quic_conn_exit_calls_src : quic_conn_exit_calls = "Wait,closeQUICConn,Add,Add,Submit" := by decide
+/-- `Shutdown` ends the read loops of the open TCP/DoT connections by expiring their read deadline; it does not
+close them, so the queries in flight are answered (`endRead`, not `closed`). -/
+theorem tcp_unblock_calls_src : tcp_unblock_calls = "SetReadDeadline" := by decide
+/-- DoH: the HTTP server is shut down gracefully (`http.Server.Shutdown` after the listener's `Close`), which lets the
+requests in flight finish. -/
+theorem doh_shutdown_calls_src : doh_shutdown_calls = "Close,Shutdown,shutdownH3" := by decide
+
 end Agd.Tie.C01
